@@ -305,6 +305,37 @@ def clientOpen (stream : List Bytes) : OpenRes :=
   | .eof => .failed false
   | .proto _ => .failed true
 
+/-- what `Client.TCP` returns -/
+inductive TcpRes where
+  | conn
+  | dialError (msg : Bytes)
+  /-- `wrapIfConnectionClosed(err)`: the caller treats the whole connection as lost -/
+  | closedError
+  deriving DecidableEq, Repr
+
+/-- what the first `Read` on the returned conn yields -/
+inductive ReadRes where
+  | payload (rest : List Bytes)
+  | dialError (msg : Bytes)
+  | error (proto : Bool)
+  deriving DecidableEq, Repr
+
+/-- eager: the response is read before `TCP` returns; fast open: a conn is returned at once -/
+def clientTCP (fastOpen : Bool) (stream : List Bytes) : TcpRes :=
+  if fastOpen then .conn
+  else match clientOpen stream with
+    | .established _ => .conn
+    | .dialError m => .dialError m
+    | .failed _ => .closedError
+
+/-- `tcpConn.Read`: with fast open the first Read reads the response first (`Established =
+    false`); without, the response has been consumed by `TCP` and Read sees what follows -/
+def clientFirstRead (stream : List Bytes) : ReadRes :=
+  match clientOpen stream with
+  | .established rest => .payload rest
+  | .dialError m => .dialError m
+  | .failed p => .error p
+
 /-! ### what an observer of a running relay can see, and the relations the theorems give -/
 
 /-- the logger calls in a trace, newest first -/
@@ -325,15 +356,17 @@ structure Obs where
   logs : List (Nat × Bool)
   deriving Repr
 
-/-- name of the first relation the observation breaks.  `exact`: the observer knows that
-    nothing is in flight (the receiver saw a clean end of stream). -/
-def Obs.check (buf : Nat) (exact : Bool) (o : Obs) : Option String :=
+/-- name of the first relation the observation breaks.
+    mode 0: `got` may lag behind what was forwarded (a receiver behind a transport);
+    mode 1: `got` is what the sink accepted, so at most one chunk is in flight;
+    mode 2: the observer knows that nothing is in flight. -/
+def Obs.check (buf : Nat) (mode : Nat) (o : Obs) : Option String :=
   if !(o.got.isPrefixOf o.sent) then some "prefix"
   else if !(o.logs.all (fun p => decide (1 ≤ p.1 ∧ p.1 ≤ buf))) then some "chunk"
   else if !(o.logs.tail.all (·.2)) then some "after-veto"
   else if !(decide (o.got.length ≤ approvedSum o.logs)) then some "unapproved"
-  else if !(decide (approvedSum o.logs ≤ o.got.length + buf)) then some "accounting"
-  else if exact && !(decide (approvedSum o.logs = o.got.length)) then some "exact"
+  else if decide (1 ≤ mode) && !(decide (approvedSum o.logs ≤ o.got.length + buf)) then some "accounting"
+  else if decide (2 ≤ mode) && !(decide (approvedSum o.logs = o.got.length)) then some "exact"
   else none
 
 /-- what the model's direction `g` shows to such an observer -/
